@@ -1872,6 +1872,7 @@ impl GRLParser {
             match function_name.to_lowercase().as_str() {
                 "retract" => {
                     // Extract object name from $Object
+                    let args_str = args_str.trim();
                     let object_name = if let Some(stripped) = args_str.strip_prefix('$') {
                         stripped.to_string()
                     } else {
